@@ -7,6 +7,7 @@
 #include <unistd.h>
 #include "replay.h"
 #include "manifold/manifold.h"
+#include "manifold/cross_section.h"
 using namespace manifold;
 
 static double bad(int kind) { return kind == 0 ? std::nan("") : kind == 1 ? INFINITY : -INFINITY; }
@@ -120,6 +121,15 @@ static std::string misc_args(int c) {
   if (must_be_invalid) return "an argument outside the domain gave Status NoError";
   return m.NumTri() > 0 ? "" : "NoError but empty";
 }
+// cross_section_args: v = case, kind (NaN, +inf, -inf)   case 0 Circle(radius), 1 Square({x, 1}), 2 Square({1, y})
+// required: an empty section, or finite contours (finding 17)
+static std::string cross_section_args(int c, int kind) {
+  const double v = bad(kind);
+  CrossSection cs = c == 0 ? CrossSection::Circle(v) : c == 1 ? CrossSection::Square({v, 1}) : CrossSection::Square({1, v});
+  if (cs.IsEmpty()) return "";
+  for (auto& poly : cs.ToPolygons()) for (auto p : poly) if (!std::isfinite(p.x) || !std::isfinite(p.y)) return "non-empty section with a non-finite coordinate";
+  return std::isfinite(cs.Area()) ? "" : "non-finite area";
+}
 // revolve_angle: v = angle in millidegrees
 static std::string revolve_angle(long md) {
   Polygons sq2 = {{{1, 0}, {2, 0}, {2, 1}, {1, 1}}};
@@ -187,6 +197,15 @@ int main(int argc, char** argv) {
     report_summary(1, "degenerate_polygon");
     return 0;
   }
+  if (!strcmp(mode, "run") && argc > 2 && !strcmp(argv[2], "cross_section_args")) {
+    auto in = parse_nums(argc > 3 ? argv[3] : "");
+    while (in.size() < 2) in.push_back(0);
+    report_current("cross_section_args", in);
+    auto s = cross_section_args((int)in[0], (int)in[1]);
+    if (!s.empty()) { report_fail("cross_section_args", in, s); return 1; }
+    report_summary(1, "cross_section_args");
+    return 0;
+  }
   if (!strcmp(mode, "run") && argc > 2 && !strcmp(argv[2], "misc_args")) {
     auto in = parse_nums(argc > 3 ? argv[3] : "");
     while (in.size() < 1) in.push_back(0);
@@ -248,6 +267,14 @@ int main(int argc, char** argv) {
       ++runs;
       if (!s.empty()) { report_fail("degenerate_polygon", in, s); ++badn; }
     }
+  for (int c = 0; c < 3; ++c)
+    for (int k = 0; k < 3; ++k) {
+      std::vector<long long> in = {c, k};
+      report_current("cross_section_args", in);
+      auto s = cross_section_args(c, k);
+      ++runs;
+      if (!s.empty()) { report_fail("cross_section_args", in, s); ++badn; }
+    }
   for (int c = 0; c < 12; ++c) {
     std::vector<long long> in = {c};
     report_current("misc_args", in);
@@ -271,6 +298,6 @@ int main(int argc, char** argv) {
       ++runs;
       if (!s.empty()) { report_fail("input_nonfinite", in, s); ++badn; }
     }
-  report_summary(runs, "ctor_nonfinite_arg,revolve_angle,degenerate_polygon,misc_args,refine_args,input_nonfinite");
+  report_summary(runs, "ctor_nonfinite_arg,revolve_angle,degenerate_polygon,cross_section_args,misc_args,refine_args,input_nonfinite");
   return badn ? 1 : 0;
 }
